@@ -143,6 +143,29 @@ pub fn run_c04(ctx: &Ctx, rep: &mut Report) {
         if case == 0 {
             rep.sample(json!({"files": texts.iter().map(|(p,t)| json!({"path":p,"text":clip(t, 600)})).collect::<Vec<_>>()}));
         }
+        // a sample also goes through the real CLI with the schema given as an introspection result (the other schema
+        // route of `check`): the same valid documents must be accepted there
+        if case % 24 == 0 {
+            if let Some((ix2, _, _)) = reference_project(&schema, &texts) {
+                use crate::introspect::{IntroStyle, introspect};
+                let style = IntroStyle { full: rng.coin(), meta_types: rng.coin(), shuffle: rng.coin() };
+                let intro = introspect(&ix2, None, style, &mut rng).to_string();
+                let dir = crate::cli::scratch_dir(&ctx.out, "c04json", case);
+                let mut files: Vec<(String, String)> = texts.clone();
+                files.push(("schema.json".into(), intro));
+                files.push(("graphql.config.yaml".into(), "schema: ./schema.json\ndocuments:\n  - ./ops/**/*.graphql\n  - ./shared/*.graphql\n".into()));
+                if crate::cli::write_project(&dir, &files).is_ok() {
+                    let r = crate::cli::run_cli(&ctx.cli, &dir, &["check", "--output-format", "json"], std::time::Duration::from_secs(60));
+                    rep.count("valid_documents_checked_through_cli_with_introspection_schema");
+                    if r.status != Some(0) && r.panicked().is_none() && !r.timed_out {
+                        let msg = serde_json::from_str::<Value>(r.stdout.lines().rev().find(|l| l.starts_with('{')).unwrap_or("{}")).ok().and_then(|v| v["check"]["errors"][0]["message"].as_str().map(|s| s.to_string())).unwrap_or_default();
+                        let class: String = msg.split('\'').step_by(2).collect::<Vec<_>>().join("_").chars().take(60).collect();
+                        rep.violations(vec![Violation { sig: format!("C04|false-positive|introspection-schema-route|{class}"), detail: format!("valid documents are accepted with the SDL schema but rejected when the same schema is given as an introspection result: {} — {}", clip(&r.stdout, 400), clip(&texts.iter().map(|(p, t)| format!("== {p}\n{t}")).collect::<Vec<_>>().join("\n"), 600)), replay: json!({"property":"C04","kind":"valid","schema":schema,"files":texts.iter().map(|(p,t)| json!([p,t])).collect::<Vec<_>>()}) }]);
+                    }
+                }
+                crate::cli::cleanup(&dir);
+            }
+        }
         match check_valid(&schema, &texts) {
             None => rep.count("skipped"),
             Some(vs) => {
